@@ -232,6 +232,23 @@ def check(ctx):
                      and "agg" in st["rv"] and st["rv"]["agg"].get("vname") == "Some"]
             ok = bool(somes) and all(lib.dominated_by_any(c, b, heads) for b in nones) \
                 and all(lib.originates_from_call(c, a["ops"][0], first) for b, a in somes)
+            # `(!seen_before).then_some(entity)`: yields its own entity exactly when no earlier element compared equal
+            ts = [(b, t) for b, t, fr in c.iter_calls() if fr and lib.tail(mir.fn_name(fr), 2) == "bool::then_some" and t["dest"]["l"] == 0]
+            if not somes and len(ts) == 1:
+                tb, tt_ = ts[0]
+                p_ = op_place(tt_["args"][0])
+                src = lib.bool_source(c, p_["l"]) if p_ is not None and not p_["p"] else None
+                eq_any = set()
+                for b, t, fr in c.iter_calls():
+                    if fr and lib.tail(mir.fn_name(fr), 1) == "any" and len(t["args"]) > 1:
+                        for o in origins(c, t["args"][1]):
+                            if o[0] == "agg" and len(o) == 3 and c.blocks[o[1]]["stmts"][o[2]]["rv"]["agg"]["kind"] == "closure":
+                                pcb = prog.body(c.blocks[o[1]]["stmts"][o[2]]["rv"]["agg"]["closure"])
+                                reqs = lib.true_return_requirements(pcb) if pcb is not None else None
+                                if reqs and all(any(v for v in r.values()) for r in reqs):
+                                    eq_any.add(b)
+                ok = src is not None and src[0] in eq_any and src[1] is True and lib.originates_from_call(c, tt_["args"][1], first) \
+                    and all(lib.dominated_by_any(c, b, heads) for b in nones)
             ctx.check(ok, "C16.c", "RevokeToken::iter_unique_entities:skips-only-duplicates", "%s:%d" % (c.file, c.line),
                       "an entry is skipped only if it names no entity or an earlier entry names the same entity; otherwise its own entity is yielded",
                       "iter_unique_entities skips entities that are not duplicates (their local data would never be cleaned up) or yields a different entity")
